@@ -549,8 +549,10 @@ theorem decode_public_key_eq (s : Str) (b : Bytes) (hd : B64.decode (Kestrel.Key
       | .error e => .error (errClass e) := by
   unfold Keyring.decode_public_key Kestrel.Keyring.decodePk
   have h32 : (b.take 32).length = 32 := by rw [List.length_take, hl]; rfl
+  -- (`-String.reduceToList`: see above; the message of `PublicKey::try_from` sits under an `if` that is undecided as long as
+  --  its argument is a bound variable, e.g. the component of a pair bound by `let (pk, checksum) = if .. { return .. } else { .. }`)
   by_cases hc : b.drop 32 = (sha256 (b.take 32)).take 4 <;>
-    simp [RsStr.b64_decode_to_vec, hd, RsStr.unwrap_res, hl, RsStr.kc_sha256, RsStr.PublicKey.try_from, h32,
+    simp [-String.reduceToList, RsStr.b64_decode_to_vec, hd, RsStr.unwrap_res, hl, RsStr.kc_sha256, RsStr.PublicKey.try_from, h32,
       Generated.encodedPkLen, hc, errClass]
 
 /-- `unlock_private_key` on an `EncodedSk` accepted by `try_from` (84 decoded bytes) -/
